@@ -20,7 +20,7 @@ func init() { register(c18{}) }
 func (c18) Meta() core.Meta {
 	return core.Meta{
 		ID: "C18", Level: "exploration",
-		Rule:        "case i = f(seed,i): a history of 1..40 option-setter calls (explicit, toggling, repeated and multi-argument forms of every setter; attribute prefixes; single-character punctuation key prefixes; both escaping switches in either order; field separators; array sizes) interleaved with decode/encode/query calls on a fixed probe corpus. Online checker: after every setter call the hooked option snapshot (VerifOptionSnapshot) must equal the successor state of the documented option model (idempotence of explicit forms; toggle / disable / reset semantics of the argument-less forms; coupled escaping switches); a repeated explicit call must leave the snapshot unchanged. Non-interference probes around the relevant calls: attribute prefix / lower-casing leave the sequence codec and JSON unchanged, cast options leave un-cast decoding unchanged, encoder switches leave decoding unchanged, decoder-only options (case folding, snake case, sequence numbers, trimming, casts, ...) leave the encodings of hand-built Maps - with keys that resemble the attribute prefix in another letter case - unchanged. After the history every option is set back to its default through the public setters: the snapshot must equal the process-start snapshot and a behaviour battery (decode, encode, query through every API family, 60+ fingerprints) must equal the battery taken in the fresh process. Non-trivial: history with >=3 setter calls; distinct by hash(history).",
+		Rule:        "case i = f(seed,i): a history of 1..40 option-setter calls (explicit, toggling, repeated and multi-argument forms of every setter; attribute prefixes; single-character punctuation key prefixes; both escaping switches in either order; field separators; array sizes) interleaved with decode/encode/query calls on a fixed probe corpus. Online checker: after every setter call the hooked option snapshot (VerifOptionSnapshot) must equal the successor state of the documented option model (idempotence of explicit forms; toggle / disable / reset semantics of the argument-less forms; coupled escaping switches); a repeated explicit call must leave the snapshot unchanged. Non-interference probes around the relevant calls: attribute prefix / lower-casing leave the sequence codec and JSON unchanged, cast options leave un-cast decoding unchanged, encoder switches leave decoding unchanged, decoder-only options (case folding, snake case, sequence numbers, trimming, casts, ...) leave the encodings of hand-built Maps - with keys that resemble the attribute prefix in another letter case - unchanged, and every setter leaves a battery of queries and typed updates (written with the current field separator) unchanged. After the history every option is set back to its default through the public setters: the snapshot must equal the process-start snapshot and a behaviour battery (decode, encode, query through every API family, 60+ fingerprints) must equal the battery taken in the fresh process. Non-trivial: history with >=3 setter calls; distinct by hash(history).",
 		Assumptions: []string{"the option model is written from the setters' documentation (DESIGN 3.3 optModel)", "key prefixes are single punctuation characters (the quantifier); a letter that occurs in the key names cannot be undone by design"},
 		Anchors:     []string{"SetGlobalKeyMapPrefix", "PrependAttrWithHyphen", "SetAttrPrefix", "IncludeTagSeqNum", "CoerceKeysToLower", "DisableTrimWhiteSpace", "CoerceKeysToSnakeCase", "CastValuesToInt", "CastValuesToFloat", "CastValuesToBool", "CastNanInf", "SetCheckTagToSkipFunc", "HandleXMPPStreamTag", "DecodeSimpleValuesAsMap", "XmlGoEmptyElemSyntax", "XmlDefaultEmptyElemSyntax", "XmlCheckIsValid", "XMLEscapeChars", "XMLEscapeCharsDecoder", "SetFieldSeparator", "SetArraySize", "LeafUseDotNotation"},
 		Floors:      map[string]int64{"setter-calls-checked": 20000, "toggle-forms": 3000, "repeat-idempotence-checks": 2000, "noninterference-probes": 3000, "restores-checked": 1500, "interleaved-api-calls": 5000},
@@ -261,6 +261,35 @@ func encodeProbe() string {
 	return b.String()
 }
 
+// queryProbe: queries and updates on a fixed JSON-decoded Map, with typed and untyped sub-keys and new values written with
+// the CURRENT field separator. No option documents an effect on these (the separator only decides how the strings are split).
+func queryProbe() string {
+	sep, _ := mxj.VerifOptionSnapshot()["fieldSep"].(string)
+	j := func(parts ...string) string { return strings.Join(parts, sep) }
+	m := mxj.Map{"doc": map[string]interface{}{"Items": []interface{}{
+		map[string]interface{}{"id": "1", "K-k": "a", "n": 1.0, "f": true},
+		map[string]interface{}{"id": "2", "K-k": "c", "n": 2.5, "f": false, "-At": "x"}}, "id": "0", "NaN": "NaN"}}
+	var b strings.Builder
+	b.WriteString(fpVals(m.ValuesForPath("doc.Items", j("n", "2.5", "num"))))
+	b.WriteString(fpVals(m.ValuesForPath("doc.Items", j("f", "true", "bool"), j("!K-k", "c"))))
+	b.WriteString(fpVals(m.ValuesForKey("K-k", j("id", "2"))))
+	b.WriteString(fpVals(m.ValuesForPath("doc.*.id")))
+	b.WriteString(sortedStrings(m.PathsForKey("id")))
+	for _, nv := range []string{j("id", "9", "num"), j("id", "7"), j("id", "true", "bool"), j("id", "1e3", "float"), j("id", "NaN", "num"), j("id", "10", "int")} {
+		cp := mxj.Map(jv.Copy(map[string]interface{}(m)).(jv.M))
+		n, err := cp.UpdateValuesForPath(nv, "doc.Items", j("K-k", "c"))
+		b.WriteString(fmt.Sprint(n, err != nil) + jv.Fp(cp) + ";")
+	}
+	cp := mxj.Map(jv.Copy(map[string]interface{}(m)).(jv.M))
+	e1 := cp.SetValueForPath("v", "doc.Items")
+	e2 := cp.RenameKey("doc.id", "ID")
+	e3 := cp.Remove("doc.NaN")
+	b.WriteString(fmt.Sprint(e1, e2, e3) + jv.Fp(cp))
+	nm, err := m.NewMap("doc.Items[1].K-k:first.Kk", "doc.id")
+	b.WriteString(jv.Fp(nm) + fmt.Sprint(err))
+	return b.String()
+}
+
 var c18decoderOnly = []string{"CoerceKeysToLower", "CoerceKeysToSnakeCase", "IncludeTagSeqNum", "DisableTrimWhiteSpace", "CastValuesTo", "CastNanInf", "SetCheckTagToSkipFunc",
 	"HandleXMPPStreamTag", "DecodeSimpleValuesAsMap", "LeafUseDotNotation", "SetArraySize", "SetFieldSeparator"}
 
@@ -442,9 +471,20 @@ func (c18) Case(c *core.Ctx) {
 		if c18isDecoderOnly(sc.name) {
 			encBefore = encodeProbe()
 		}
+		qBefore := ""
+		if sc.class != "fieldsep" { // (the probe is written with the current separator; a value such as 2.5 contains the separator ".")
+			qBefore = queryProbe()
+		}
 		sc.apply()
 		sc.model(model)
 		hist = append(hist, sc.name)
+		if qBefore != "" {
+			c.Count("noninterference-probes:queries")
+		}
+		if qAfter := queryProbe(); qBefore != "" && qAfter != qBefore {
+			c.Violate("c18-interference:option-changes-queries", sc.name+" changed the result of a path / key query or of an update (no option documents such an effect)", core.D{"history": hist, "before": qBefore, "after": qAfter})
+			return
+		}
 		if encBefore != "" {
 			c.Count("noninterference-probes:encoders")
 			if encAfter := encodeProbe(); encAfter != encBefore {
